@@ -25,6 +25,7 @@ import (
 	"bytes"
 	"encoding/json"
 	"fmt"
+	"io"
 	"os"
 	"sync"
 	"testing"
@@ -515,6 +516,12 @@ func classify(tg *flv.Tag) flvKind {
 	return flvOther
 }
 
+// writerViewer consumes FLV tags the way service/flv does: through its own flv.Writer.
+type writerViewer struct{ w *flv.Writer }
+
+func (v *writerViewer) Consume(p media.Pack) { v.w.WriteFlvTag(p.(*flv.Tag)) }
+func (v *writerViewer) Close() error         { return nil }
+
 type flvCase struct {
 	Codec     string   `json:"codec"`
 	CacheGop  bool     `json:"cache_gop"`
@@ -552,7 +559,25 @@ func TestLateJoinFLV(t *testing.T) {
 		})
 		defer media.VerifSetSched(nil)
 		first := mediah.NewRec("first")
+		first.Fingerprint = func(p media.Pack) uint64 {
+			tg := p.(*flv.Tag)
+			return evid.FP(tg.TagType, tg.Timestamp, tg.DataSize, tg.Data)
+		}
 		firstCID := s.StartConsume(first, media.FLVPacket, "first")
+		// a viewer the way the HTTP-FLV / ws-flv handlers consume: every tag goes through an
+		// flv.Writer of its own (which rebases timestamps for ITS client); it joins at a
+		// generated point and must not disturb what other consumers are handed
+		viewerAt := rapid.IntRange(0, len(pl.pubs)).Draw(t, "writerViewerJoinsAfter")
+		viewer := &writerViewer{}
+		viewerJoined := false
+		joinViewer := func(published int) {
+			if !viewerJoined && published >= viewerAt {
+				viewerJoined = true
+				w, _ := flv.NewWriter(io.Discard, s.FlvTypeFlags())
+				viewer.w = w
+				s.StartConsume(viewer, media.FLVPacket, "writer-viewer")
+			}
+		}
 		if firstCID == 0 {
 			t.Fatalf("FLV consumption not supported for this stream (harness SDP problem)")
 		}
@@ -586,7 +611,9 @@ func TestLateJoinFLV(t *testing.T) {
 				}
 				p := pl.pubs[cursor]
 				cursor++
+				at := cursor
 				jmu.Unlock()
+				joinViewer(at - 1)
 				s.WriteRtpPacket(p.P)
 			}
 		}
@@ -662,6 +689,10 @@ func TestLateJoinFLV(t *testing.T) {
 			if ev.Point == "flvpublish.cached" {
 				m++
 			}
+		}
+		if ch := first.Changed(); len(ch) > 0 {
+			tg := first.Got()[ch[0]].(*flv.Tag)
+			evid.Violation(t, "flv-shared-tag-modified", pl, "%d tags handed to a consumer were modified afterwards (first: tag %d, now %s): a tag is shared by every consumer and by the GOP cache, another viewer rewrote it", len(ch), ch[0], tagStr(tg))
 		}
 		all := first.Got() // the from-the-start consumer saw every tag, in order
 		if m > len(all) {
